@@ -15,7 +15,7 @@ Proof.
 Qed.
 
 Lemma memory_guarded : C10_memory_statement Guarded.
-Proof. intros k g calls sched Hok. apply guarded_race_free. exact Hok. Qed.
+Proof. intros pk k g calls sched Hok. apply guarded_race_free. exact Hok. Qed.
 
 Lemma full_for_code : C10_full_statement code_disc.
 Proof. rewrite code_disc_guarded. split; [exact logic_guarded | exact memory_guarded]. Qed.
@@ -30,7 +30,7 @@ Proof.
     destruct j as [|j]; [discriminate Hj|].
     change (firstn (S j) [1%N]) with (1%N :: firstn j []) in Hj. cbn [map] in Hj.
     rewrite Es in Hj. discriminate Hj.
-  - intros H. apply unguarded_has_race. apply H. exact w1_calls_ok.
+  - intros H. apply unguarded_has_race. apply (H (fun _ => 0%N)). exact w1_calls_ok.
 Qed.
 
 (* the cache is the only mutable state a codec call reaches: the go/types census passes
